@@ -34,9 +34,14 @@ def rbytes(rng, pool=None, maxlen=12):
 
 class Pools:
     def __init__(self, rng):
-        self.ips = [bytes([10, 0, 0, i]) for i in range(3)] + [bytes(range(16))]
-        self.names = [b"\x03www\x07example\x03com\x00", b"\x00", b"\x02ns\x04test\x00", b""]
-        self.cts = [(1, 1), (28, 1), (65535, 65535), (0, 0)]
+        # values that a "canonicalising" or "normalising" change would identify although they are different byte strings:
+        # an IPv4 address and its IPv4-mapped IPv6 form, zero addresses of both lengths, a prefix-truncated address,
+        # names differing in letter case or in the root label
+        self.ips = [bytes([10, 0, 0, i]) for i in range(3)] + [bytes(range(16)), bytes(10) + b"\xff\xff" + bytes([10, 0, 0, 1]),
+                    bytes(4), bytes(16), bytes(15) + b"\x01", bytes([10, 0, 0])]
+        self.names = [b"\x03www\x07example\x03com\x00", b"\x00", b"\x02ns\x04test\x00", b"", b"\x03WWW\x07example\x03com\x00",
+                      b"\x03www\x07example\x03com"]
+        self.cts = [(1, 1), (28, 1), (65535, 65535), (0, 0), (1, 0), (0, 1)]
 
 
 def gen_rr(rng, pools, question=False):
